@@ -557,6 +557,8 @@ def _h_pha(world: World) -> None:
         run_async(world, main)
     except Deadlock:
         raise Violation("deadlock", f"writer1 never finishes after the peer resumed reading; notes={world.notes}", key="C08/pha/deadlock") from None
+    if peer.engine.error is not None:
+        raise Violation("tls-stream-corrupted", f"the reference peer could not decrypt the stream: {type(peer.engine.error).__name__}: {peer.engine.error}", key="C08/pha/tls-stream-corrupted")
     if not state.get("cert"):
         raise Violation(
             "read-produced-ciphertext-is-sent",
